@@ -57,9 +57,12 @@ class HSys:
             self.U = self.usrc
         else:
             cls = {"send": SendSource, "throwonly": ThrowOnlySource, "cls": ClsSource, "noclose": ClsSourceNoClose,
-                   "iterable": ClsSource, "clsnone": ClsSource}[ukind]
+                   "iterable": ClsSource, "clsnone": ClsSource, "proxy": ClsSource}[ukind]
             self.usrc = cls(self.rec, 1, items)
             self.U = self.usrc
+            if ukind == "proxy":      # what is handed over is a delegating proxy: its aclose exists, through __getattr__ only
+                from .instruments import ClsSourceDelegating  # noqa: PLC0415
+                self.U = ClsSourceDelegating(self.usrc)
         self.ukind = ukind
         self.arg0 = self.U
         if ukind == "iterable":
@@ -111,7 +114,7 @@ class HSys:
         if self.salt is None or j == 0:     # (a tool nobody ever asks for an item never gets to run: closing it closes nothing)
             v = 0
         else:
-            v = (self.salt + self.ntool) % (7 if which == "islice" else 4)
+            v = (self.salt + self.ntool) % (8 if which == "islice" else 4)
         self.ntool += 1
 
         async def take(it, n):
@@ -136,6 +139,10 @@ class HSys:
                 return take(L.islice(h, 0, None, 2), (j + 1) // 2)
             if v == 4:
                 return take(L.zip_longest(h, []), j)
+            if v == 7:                                 # batches of one, closed by the consumer after j of them
+                async def singles():
+                    return [b[0] for b in await take(L.batched(h, 1), j)]
+                return singles()
             if v == 6 and j >= 2:                      # a slice with a start: the first items are consumed, not handed out
                 self.skip = min(2, j - 1)
                 return L.list(L.islice(h, self.skip, j))
@@ -256,14 +263,14 @@ INVARIANT InOrder
 
 # (DataLen, MaxHandles, MaxOps, scope, borrow, usend, underlying kinds)
 TIERS = {
-    "C07": {"quick": [(2, 2, 4, False, True, False, ["cls", "agen", "throwonly", "noclose", "clsnone"]), (2, 1, 4, False, True, True, ["send"]), (3, 1, 3, False, True, False, ["clsnone", "agen"])],
+    "C07": {"quick": [(2, 2, 4, False, True, False, ["cls", "agen", "throwonly", "noclose", "clsnone", "proxy"]), (2, 1, 4, False, True, True, ["send"]), (3, 1, 3, False, True, False, ["clsnone", "agen"])],
             "thorough": [(3, 3, 5, False, True, False, ["cls", "agen", "throwonly", "noclose", "clsnone"]), (3, 2, 5, False, True, True, ["send"]), (2, 2, 6, False, True, False, ["cls"])]},
-    "C08": {"quick": [(2, 2, 4, True, False, False, ["cls", "agen", "iterable", "sync", "noclose", "clsnone"]), (2, 2, 4, True, True, False, ["cls"]), (3, 1, 3, True, False, False, ["clsnone", "agen"])],
-            "thorough": [(3, 3, 5, True, False, False, ["cls", "agen", "iterable", "sync", "noclose", "clsnone"]), (3, 3, 5, True, True, False, ["cls", "agen"]), (2, 2, 6, True, True, True, ["send"])]},
+    "C08": {"quick": [(2, 2, 4, True, False, False, ["cls", "agen", "iterable", "sync", "noclose", "clsnone", "proxy"]), (2, 2, 4, True, True, False, ["cls"]), (3, 1, 3, True, False, False, ["clsnone", "agen"])],
+            "thorough": [(3, 3, 5, True, False, False, ["cls", "agen", "iterable", "sync", "noclose", "clsnone", "proxy"]), (3, 3, 5, True, True, False, ["cls", "agen"]), (2, 2, 6, True, True, True, ["send"])]},
 }
 
 
-NVARIANTS = 7     # concrete tools standing for one Tool step of the model (HSys.tool)
+NVARIANTS = 8     # concrete tools standing for one Tool step of the model (HSys.tool)
 
 
 def replay_path(args):
